@@ -3,7 +3,7 @@
  *   new                         fresh context                       > new ok
  *   open <path>                 fresh context + kdump_open_fd       > open <status>
  *   regdef <name> <off> <len>   (layout description for the model)  -- no output
- *   endian <0|1>, initblob <hex> (for the model)                    -- no output
+ *   endian <0|1>, initblob <hex>, xenrec <size> (for the model)     -- no output
  *   setnum <key> <n>            kdump_set_attr NUMBER               > set <status>
  *   setstr <key> <hex>          kdump_set_attr STRING               > set <status>
  *   setblob <key> <hex>         kdump_set_attr BLOB (new blob)      > set <status>
@@ -171,7 +171,8 @@ int main(void)
 			fd = open(line + 5, O_RDONLY);
 			st = kdump_open_fd(ctx, fd);
 			printf("> open %s\n", kstatus_name(st)); c16(st, line);
-		} else if (!strncmp(line, "regdef ", 7) || !strncmp(line, "endian ", 7) || !strncmp(line, "initblob ", 9)) {
+		} else if (!strncmp(line, "regdef ", 7) || !strncmp(line, "endian ", 7) || !strncmp(line, "initblob ", 9) ||
+			   !strncmp(line, "xenrec ", 7)) {
 			;
 		} else if (!ctx) {
 			puts("> no-context");
